@@ -104,6 +104,9 @@ EQ_SPACING = ['%s = %s', '%s=%s', '  %s   =   %s  ', '%s =%s', '\t%s = %s']
 LAG_FORMS = ['%s(k-1)', '%s(t-1)', '%s (k -1 )']
 
 
+MARKERS = ['# exogenous section', '   # Exogenous Variables', '\t#exogenous', 'exogenous', '  Exogenous  ', '# EXOGENOUS', ' #   Exogenous variables follow   ']
+
+
 def line_blocks(tier):
     """(text, expected classification) pairs: lines of every class in several orders and spacings."""
     out = []
@@ -127,7 +130,8 @@ def line_blocks(tier):
                     lines += [('param', sp % ('MaxTime', '7')), ('param', sp % ('Err_Tolerance', '1e-4'))]
                     lines += [('bad', 'oops no equals'), ('bad', 'a = b = c'), ('blank', ''), ('blank', '   ')]
                     rnd.shuffle(lines)
-                    text = '\n'.join(l for _, l in lines) + '\n# exogenous section\n' + '\n'.join(sp % (v, e) for v, e in exo)
+                    marker = MARKERS[(ri * 5 + si * 3 + li + int(with_t)) % len(MARKERS)]
+                    text = '\n'.join(l for _, l in lines) + '\n' + marker + '\n' + '\n'.join(sp % (v, e) for v, e in exo)
                     out.append((text, dict(endo=endo, lag=lag, ic=ic, exo=exo, with_t=with_t)))
     return out
 
